@@ -167,19 +167,22 @@ func C18(tier string) int {
 			run.HarnessErr = err
 			return run.Finish()
 		}
-		for phase := 0; phase < 2; phase++ {
-			if phase == 1 {
+		for phase := 0; phase < 3; phase++ {
+			if phase >= 1 {
 				// Dynamic creation through Dirk: a plain account via generation (where this table permits it),
 				// and a distributed account added the way a DKG commit adds it (import + AddAccount).
 				creds := &checker.Credentials{Client: "c1", RequestID: "r"}
-				if pk, _, gerr := r.Process.OnGenerate(r.Ctx, creds, "W1/gen1", []byte("pass"), 1, 1); gerr == nil {
-					pop = append(pop, c18Acct{wallet: "W1", name: "gen1", pub: pk})
+				// (Phase 2 does the same again: a second creation in each wallet after the wallet has been listed with
+				// its first dynamic account in place.)
+				gen, dyn := fmt.Sprintf("gen%d", phase), fmt.Sprintf("dyn%d", phase)
+				if pk, _, gerr := r.Process.OnGenerate(r.Ctx, creds, "W1/"+gen, []byte("pass"), 1, 1); gerr == nil {
+					pop = append(pop, c18Acct{wallet: "W1", name: gen, pub: pk})
 					classes["dynamic plain account created"]++
 				}
 				dw := r.Wallets["D1"]
 				_ = dw.(e2wtypes.WalletLocker).Unlock(r.Ctx, nil)
 				k, comp := rig.NewKey(), rig.NewKey()
-				a, ierr := dw.(e2wtypes.WalletDistributedAccountImporter).ImportDistributedAccount(r.Ctx, "dyn", k.Marshal(), 2,
+				a, ierr := dw.(e2wtypes.WalletDistributedAccountImporter).ImportDistributedAccount(r.Ctx, dyn, k.Marshal(), 2,
 					[][]byte{comp.PublicKey().Marshal(), rig.NewKey().PublicKey().Marshal()}, map[uint64]string{1: "signer-test01:8881", 2: "signer-test02:8882"}, []byte("pass"))
 				if ierr != nil {
 					run.HarnessErr = ierr
@@ -189,7 +192,7 @@ func C18(tier string) int {
 					run.HarnessErr = err
 					return run.Finish()
 				}
-				pop = append(pop, c18Acct{wallet: "D1", name: "dyn", pub: a.PublicKey().Marshal(), composite: comp.PublicKey().Marshal()})
+				pop = append(pop, c18Acct{wallet: "D1", name: dyn, pub: a.PublicKey().Marshal(), composite: comp.PublicKey().Marshal()})
 			}
 			byFull := map[string]c18Acct{}
 			for _, a := range pop {
@@ -256,7 +259,7 @@ func C18(tier string) int {
 	run.Coverage = map[string]any{
 		"evaluations":         cells,
 		"distinct_nontrivial": len(classes),
-		"rule":                "population: 2 plain wallets and 1 distributed wallet with regex-significant account names; 7 permission tables incl. per-account, deny-first and case-differing entries; every path list of length <= 2 (<= 3 in thorough, one third of the triples) over 16 path forms (wallet only, trailing slash, literal, regex, alternation, anchored, unknown, empty, leading slash, invalid regex, wrong case); 3 clients; before and after creating a plain account through generation and a distributed account through import+AddAccount (the DKG commit path); through the real gRPC lister handler; oracle: returned set is a subset of (requested wallets and permitted), a superset of (permitted and whole-matching a requested path), names and keys equal the store's; distinct = (size of must set, size of returned set) classes",
+		"rule":                "population: 2 plain wallets and 1 distributed wallet with regex-significant account names; 7 permission tables incl. per-account, deny-first and case-differing entries; every path list of length <= 2 (<= 3 in thorough, one third of the triples) over 16 path forms (wallet only, trailing slash, literal, regex, alternation, anchored, unknown, empty, leading slash, invalid regex, wrong case); 3 clients; before creating, after creating, and after creating a second time a plain account through generation and a distributed account through import+AddAccount (the DKG commit path), every listing repeated in each of the three phases; through the real gRPC lister handler; oracle: returned set is a subset of (requested wallets and permitted), a superset of (permitted and whole-matching a requested path), names and keys equal the store's; distinct = (size of must set, size of returned set) classes",
 		"samples":             samples.List(),
 		"exhaustive":          true,
 		"cells":               cells,
